@@ -60,7 +60,7 @@ def gen_history(rng, maxlen, vary_dim=True):
 
 def cases(run: Run):
     rng = run.rng
-    out = list(corpus(PID))
+    out = [dec(c) for c in corpus(PID)]  # stored as JSON: rationals as strings
     for _ in range(run.n(150, 2500)):
         kind = rng.choice(["standard", "sliding", "fading"])
         # significances over the whole open interval: the usual ones, very strict ones (1 - alpha rounds to 1 below 1.1e-16) and lax ones
